@@ -84,7 +84,12 @@ func expireRecords(st *node.KVStore) []expRec {
 	return out
 }
 
-func logicalDump(st *node.KVStore, ntable int) dump {
+// hllKeys: KV keys some pfadd of the log writes. The bytes of a written-back
+// sketch are gob-encoded including a Go map (random order from run to run and
+// from replica to replica): for these keys GET is compared by length and the
+// single-bit probes are left out, so that the outcome of a run is a function
+// of its tape.
+func logicalDump(st *node.KVStore, ntable int, hllKeys map[string]int) dump {
 	d := dump{}
 	now := time.Now().UnixNano()
 	for _, tb := range tables[:ntable] {
@@ -92,14 +97,21 @@ func logicalDump(st *node.KVStore, ntable int) dump {
 		for _, kk := range kvKeys {
 			key := []byte(tb + ":" + kk)
 			p := clKV + "|" + string(key) + "|"
+			_, isHLL := hllKeys[string(key)]
 			v, err := st.KVGet(key)
 			d[p+"get"] = q(v) + es(err)
+			if isHLL && v != nil {
+				d[p+"get"] = fmt.Sprintf("len:%d", len(v)) + es(err)
+			}
 			ver, err := st.KVGetVer(key)
 			d[p+"ver"] = fmt.Sprint(ver) + es(err)
 			ttl, err := st.KVTtl(key)
 			d[p+"ttl"] = fmt.Sprint(ttl) + es(err)
 			v, err = st.KVGetExpired(key)
 			d[p+"getexpired"] = q(v) + es(err)
+			if isHLL && v != nil {
+				d[p+"getexpired"] = fmt.Sprintf("len:%d", len(v)) + es(err)
+			}
 			n, err := st.KVExists(key)
 			d[p+"exists"] = fmt.Sprint(n) + es(err)
 			pf, err := st.PFCount(now, key)
@@ -117,6 +129,9 @@ func logicalDump(st *node.KVStore, ntable int) dump {
 				bits = append(bits, fmt.Sprint(bv)+es(err))
 			}
 			d[p+"bits"] = strings.Join(bits, ",")
+			if _, isHLL := hllKeys[string(key)]; isHLL {
+				d[p+"bits"] = "-"
+			}
 			ver, err := st.BitGetVer(key)
 			d[p+"ver"] = fmt.Sprint(ver) + es(err)
 			ttl, err := st.BitTtl(key)
